@@ -35,8 +35,12 @@ def static_valid(case):
     nsl = 0
     for o in [x.split() for x in case.split(",") if x.strip()]:
         k = o[0]
-        if k in ("Q", "D", "U"):
+        if k in ("Q", "D"):
             return False
+        if k == "U":          # node_used on already buffered bytes (down_chunk_from_buffer / _process / _skip_process):
+            if int(o[3]) > WANT_MAX:   # reported without asking node_quota first, may exceed what was granted
+                return False
+            continue
         if k == "S":
             nsl += 1
             if nsl > 8:
@@ -130,8 +134,13 @@ def valid_case(r, big=False):
             ops.append("I %d %d" % (l, k))
         elif c < 0.82:
             ops.append("E %d %d" % (l, k))
-        elif c < 0.88:
+        elif c < 0.86:
             ops.append("V %d %d" % (l, r.choice([0, 1, 17, 100, 1000, 20000])))
+        elif c < 0.88:
+            # buffered piece bytes accounted without asking first, often right after another node drained the pool
+            if r.random() < 0.6:
+                ops.append("X %d %d %d" % (l, r.randrange(0, max(1, nn) + 1), 1 << 20))
+            ops.append("U %d %d %d" % (l, k, r.choice([1, 100, 512, 2048, 5000, 16384, 20000, 70000])))
         elif c < 0.96:
             if l == 0:
                 v = r.choice([0] + RATES) if r.random() < 0.25 else pick_rate()
@@ -178,6 +187,30 @@ def idle_case(r):
         ops.append("X %d %d %d" % (l, k, r.choice([16384, 131072, 131072, 1 << 20])))
         if r.random() < 0.2:
             ops.append("T 1000000")
+    return ",".join(ops)
+
+
+def greedy_case(r):
+    """Several greedy connections on one list at a rate whose tick quota is below the max chunk: one connection
+    is served per tick; every waiter must get its turn (FIFO waiting queue, bounded wait)."""
+    ops = []
+    rate = r.choice([600, 1000, 1000, 1500, 2000, 4000, 8192, 20000])
+    nsl = r.choice([0, 0, 1])
+    if nsl:
+        ops += ["S", "R 1 %d" % r.choice([0, rate, 2 * rate])]
+    ops.append("R 0 %d" % rate)
+    l = r.randrange(0, nsl + 1)
+    n = r.choice([3, 3, 4, 5, 6])
+    for k in range(n):
+        ops.append("I %d %d" % (l, k))
+    for _ in range(r.randrange(3 * n, 6 * n)):
+        ops.append("T %d" % r.choice([1000000, 1000000, 1000000, 500000, 2000000]))
+        order = list(range(n))
+        r.shuffle(order)
+        for k in order:
+            ops.append("X %d %d %d" % (l, k, r.choice([999999, 999999, 65536])))
+        if r.random() < 0.1:
+            ops.append("U %d %d %d" % (l, r.randrange(n), r.choice([100, 3000, 40000])))
     return ",".join(ops)
 
 
@@ -242,6 +275,10 @@ HAND = [
     # (real code: deact,x=100000,deact,x=100000,deact,x=100000,x=100000,...). The upper bound, the fixed burst and
     # bounded reactivation (cursor_reaches_every_list) all hold; only throughput during <= 2*(slaves+1) ticks is lost.
     "S,R 0 100000,I 0 0," + ",".join(["T 1000000,X 0 0 999999"] * 9),
+    # three greedy connections at 1000 B/s (tick quota 1000 < max chunk 2048): served in turn, nobody starves
+    "R 0 1000,I 0 0,I 0 1,I 0 2," + ",".join(["T 1000000,X 0 0 999999,X 0 1 999999,X 0 2 999999"] * 12),
+    # buffered bytes reported beyond what was granted, right after another connection drained the pool
+    "R 0 10000,I 0 0,I 0 1,T 1000000,T 1000000,X 0 0 999999,U 0 1 5000,U 0 1 70000,T 1000000,X 0 1 1",
     # same with no connection at all during the idle phase
     "R 0 10240," + ",".join(["T 10000000"] * 30) + ",I 0 0,X 0 0 1048576,X 0 0 1048576",
 ]
@@ -263,7 +300,7 @@ def exhaustive_small():
 def gen(seed, tier):
     r = random.Random(seed)
     cases = []
-    stats = {"corpus": 0, "hand": 0, "valid": 0, "idle": 0, "raw": 0, "exhaustive": 0}
+    stats = {"corpus": 0, "hand": 0, "valid": 0, "idle": 0, "greedy": 0, "raw": 0, "exhaustive": 0}
     cdir = os.path.join(os.path.dirname(os.path.dirname(os.path.abspath(__file__))), "corpus", "C12")
     if os.path.isdir(cdir):
         for f in sorted(os.listdir(cdir)):
@@ -283,6 +320,10 @@ def gen(seed, tier):
     for _ in range(ni):
         cases.append(idle_case(r))
     stats["idle"] = ni
+    ng = 100 if tier == "quick" else 800
+    for _ in range(ng):
+        cases.append(greedy_case(r))
+    stats["greedy"] = ng
     for _ in range(nr):
         cases.append(raw_case(r))
     stats["raw"] = nr
@@ -337,4 +378,6 @@ def all_rates(cases=None):
                 u.add(int(t[2]))
     for rate in [1000, 10240, 50000, 131072, 1 << 20]:      # idle_case
         u |= set([rate, rate // 2 + 1, 4 * rate])
+    for rate in [600, 1000, 1500, 2000, 4000, 8192, 20000]:    # greedy_case
+        u |= set([rate, 2 * rate])
     return sorted(u)
